@@ -27,7 +27,7 @@ def eval_test(e, atom):
     return atom(norm(e), e)
 
 
-def resolve_flags(fn_node, test, depth=2):
+def resolve_flags(fn_node, test, depth=2, attrs=False):
     """copy of `test` in which local flag names are replaced by their (only) defining expression when that is a condition"""
     import copy
     defs = {}
@@ -37,6 +37,10 @@ def resolve_flags(fn_node, test, depth=2):
     def rec(e, d):
         if isinstance(e, ast.Name) and d > 0 and len(defs.get(e.id, ())) == 1 and isinstance(defs[e.id][0], (ast.Compare, ast.BoolOp, ast.UnaryOp, ast.Call, ast.Constant)):
             return rec(copy.deepcopy(defs[e.id][0]), d - 1)
+        if attrs and isinstance(e, ast.Name) and len(defs.get(e.id, ())) == 1 and isinstance(defs[e.id][0], ast.Attribute):
+            return copy.deepcopy(defs[e.id][0])          # local alias of an attribute read: `status = obj._status_`
+        if attrs and isinstance(e, ast.Compare):
+            e.left = rec(e.left, d); e.comparators = [rec(c, d) for c in e.comparators]
         if isinstance(e, ast.UnaryOp) and isinstance(e.op, ast.Not): e.operand = rec(e.operand, d)
         elif isinstance(e, ast.BoolOp): e.values = [rec(v, d) for v in e.values]
         return e
@@ -68,7 +72,7 @@ class Machine:
     def env(self, st): return dict(zip(self.vars, st))
     def st(self, env): return tuple(env[v] for v in self.vars)
 
-    def run(self, init_envs):
+    def run(self, init_envs, start=None):
         g = self.g
         def transfer(n, states, lab):
             out = set()
@@ -89,7 +93,7 @@ class Machine:
                 for upd in alts:
                     e2 = dict(env); e2.update(upd); out.add(self.st(e2))
             return frozenset(out) if out else None
-        IN = g.forward([self.st(e) for e in init_envs], transfer)
+        IN = g.forward([self.st(e) for e in init_envs], transfer, start=start)
         return IN
 
     def states_at(self, IN, node):
